@@ -195,3 +195,46 @@ def mon_c01_zk(world, kind):
         if any(t > c for t, c in zip(tot, cap)):
             world.flag('records-exceed-declared-capacity', 'Master.' + kind,
                        {'server': s, 'sum': tot, 'declared': cap})
+
+
+def mon_c03_zk(world, kind):
+    """C03 against the ZooKeeper truth: after a cycle every placed instance is
+    on a server whose RECORD (/servers/<name>) is in the partition of the
+    instance's allocation and lists every trait the instance's manifest and
+    its allocation require, and whose presence node exists or which is inside
+    its retention (state is C08's business; only partition/traits here)."""
+    tree = world.tree
+    cell = world.master.cell
+    allocs = json.loads(tree.find(z.ALLOCATIONS).data.decode() or '[]')
+    for app in cell.apps.values():
+        if not app.server:
+            continue
+        rec = tree.find(z.path.server(app.server))
+        if rec is None or not rec.data:
+            continue
+        rec = json.loads(rec.data.decode())
+        man = tree.find(z.path.scheduled(app.name))
+        if man is None or not man.data:
+            continue
+        man = json.loads(man.data.decode())
+        need = set(man.get('traits', []))
+        part = '_default'
+        for obj in allocs:
+            if app.allocation is not None and \
+                    '/'.join(app.allocation.path) == obj['name'].replace(':', '/'):
+                need |= set(obj.get('traits', []))
+                part = obj.get('partition') or '_default'
+        world.stats['c03_zk_checks'] += 1
+        if (rec.get('partition') or '_default') != part:
+            world.flag('placed-on-server-recorded-in-other-partition',
+                       'Master.' + kind,
+                       {'app': world.tmpl[app.name], 'server': app.server,
+                        'server_partition': rec.get('partition'),
+                        'allocation_partition': part})
+        missing = need - set(rec.get('traits', []))
+        if missing:
+            world.flag('placed-on-server-whose-record-lacks-traits',
+                       'Master.' + kind,
+                       {'app': world.tmpl[app.name], 'server': app.server,
+                        'missing': sorted(missing),
+                        'record_traits': rec.get('traits', [])})
